@@ -7,7 +7,7 @@ import signal
 import tempfile
 
 from . import native, front
-from .types import T, Int, Bool, Bytes, Str, NoneT, Const, Opt, OneOf, ListT, TupleT, SeqStr, DictT, Obj, EnumT, TagT, Enc, Lib, Any, PathStr
+from .types import ClsT, T, Int, Bool, Bytes, Str, NoneT, Const, Opt, OneOf, ListT, TupleT, SeqStr, DictT, Obj, EnumT, TagT, Enc, Lib, Any, PathStr
 
 
 class CannotBuild(Exception):
@@ -68,6 +68,9 @@ def build_native(t, val):
     if isinstance(t, Lib) and t.kind == "Path":
         import pathlib
         return pathlib.Path(val.get("s", ""))
+    if isinstance(t, ClsT):
+        native.ensure_repo_on_path()
+        return getattr(importlib.import_module(front.relpath_to_module(t.relpath)), t.cls)
     if isinstance(t, EnumT):
         native.ensure_repo_on_path()
         mod = importlib.import_module(front.relpath_to_module(t.relpath))
